@@ -168,6 +168,8 @@ int __wrap_regexec(const regex_t *preg, const char *string, size_t nmatch, regma
 }
 
 static int h_nopipe;
+static char h_logpath[512];
+static long h_logpos;
 static char *rewrite_names[64];
 static int nrewrite_names = 0;
 
@@ -212,6 +214,7 @@ static void load_conf(void) {
 
 static void h_case_begin(void) {
     opidx = 0;
+    h_logpath[0] = 0; h_logpos = 0;
     verif_conf_file = NULL; verif_conf_loaded = 0; nrx = 0; nrewrite_names = 0; h_nopipe = 0;
     debug_init("verif");
     debug_set_level(getenv("VERIF_DEBUG") ? atoi(getenv("VERIF_DEBUG")) : 1);
